@@ -31,6 +31,12 @@ type Workload struct {
 	KVConfig map[string]interface{} `json:"kvconfig"`
 	// Tail operations after all batches: "persist", "merge", "close"
 	Tail []string `json:"tail"`
+	// LockPauseUS > 0: pause (microseconds) injected at the hook points that run
+	// while the root lock is held (persist.take, merge.take) - a slow machine.
+	// Go's mutex then hands the lock to a waiting introducer first (starvation
+	// mode), the schedule in which "take the snapshot AND its waiters in one
+	// critical section" matters.
+	LockPauseUS int `json:"lock_pause_us,omitempty"`
 }
 
 var idSpace = []string{"a", "b", "c", "d"}
